@@ -1151,6 +1151,39 @@ def rsecret(rng):
     return rng.choice([b'\xef\xbb\xbf' + s, s + b'\x00', b' ' + s + b' ', s.replace(b'\x00', b'\x01'), b'tunnel-Aa' + s[:4], b'tunnel-BB' + s[:4]])
 
 
+def weak_twin(rng, s):
+    """a different secret that a weak fingerprint of the first (length, sum, xor, a 31-polynomial, first/last octets) cannot tell apart"""
+    if b'Aa' in s:
+        return s.replace(b'Aa', b'BB', 1)
+    b = bytearray(s)
+    if len(b) >= 2:
+        c = rng.random()
+        i = rng.randrange(len(b) - 1)
+        if c < 0.35:
+            j = rng.randrange(len(b))
+            b[i], b[j] = b[j], b[i]
+        elif c < 0.7 and b[i] < 255 and b[i + 1] >= 31:
+            b[i] += 1; b[i + 1] -= 31          # equal under h = 31*h + c
+        else:
+            k = len(b) // 2
+            b[k] ^= 0x20
+    elif len(b) == 1:
+        b[0] ^= 1
+    return bytes(b)
+
+
+def with_secret_twins(rng, vals, args):
+    """now and then the same value is hidden again, right after, under a near-twin of the secret (same thread, adjacent calls)"""
+    v2, a2 = [], []
+    for v, a in zip(vals, args):
+        v2.append(v); a2.append(a)
+        if rng.random() < 0.1 and a[0]:
+            t = weak_twin(rng, a[0])
+            if t != a[0]:
+                v2.append(v); a2.append((t, a[1], a[2], a[3]))
+    return v2, a2
+
+
 def hide_args(rng):
     secret = rsecret(rng)
     rv = rbytes(rng, 4)
@@ -1179,6 +1212,7 @@ def run_c11(ctx):
     rng = ctx.rng
     vals = hide_values(ctx, ctx.scale(25, 250))
     args = [hide_args(rng) for _ in vals]
+    vals, args = with_secret_twins(rng, vals, args)
     for i, v in enumerate(vals):   # keep the wire form encodable: 2+|payload|+|lp| <= 1008
         if len(v) // 2 + len(args[i][2]) > 950:
             args[i] = (args[i][0], args[i][1], b'', args[i][3])
@@ -1234,6 +1268,7 @@ def run_c12(ctx):
     rng = ctx.rng
     vals = hide_values(ctx, ctx.scale(20, 200))
     args = [hide_args(rng) for _ in vals]
+    vals, args = with_secret_twins(rng, vals, args)
     h = ['HIDE\t%s\t%s\t%s\t%s\t%s' % (v, a[0].hex(), a[1].hex(), a[2].hex(), a[3].hex()) for v, a in zip(vals, args)]
     rh = run_compare(ctx, rep, h, ['hide_' + avp_kind(v) for v in vals], lambda c, r: r)
     # third, independent computation (Python, hashlib MD5) of RFC 2661 4.3 from the encoded payload
